@@ -108,3 +108,118 @@ func ZZH_C11_TemplateCloneReferences() {
 	zzhCheckRefs(src)
 	zzvReach("cloned")
 }
+
+// ---- placeholder substitution at run level ----
+
+type zzhColored struct{ text, color string }
+
+// zzhNormalise merges adjacent pieces of the same colour and drops empty ones: the run
+// segmentation itself is not part of the property, text and formatting per character are.
+func zzhNormalise(in []zzhColored) []zzhColored {
+	var out []zzhColored
+	for _, p := range in {
+		if p.text == "" {
+			continue
+		}
+		if n := len(out); n > 0 && out[n-1].color == p.color {
+			out[n-1].text += p.text
+			continue
+		}
+		out = append(out, p)
+	}
+	return out
+}
+
+var zzhRunTemplates = []string{"ab{{name}}cd", "{{name}}", "x{{name}}{{other}}y", "{{name}} and {{name}}", "{{na", "plain text", "a{{other}}b{{name}}"}
+
+// A paragraph whose text (one of several placeholder layouts) is cut into up to three runs at
+// solver-chosen positions - so a placeholder may be split across runs anywhere - each run with
+// its own formatting: after replaceVariablesInParagraph every placeholder with data is replaced
+// by its value, every other character is kept, placeholders without data stay visible, and
+// every character carries the formatting of the run it came from (a value: of the run holding
+// the placeholder's first character).
+func ZZH_C18_PlaceholderAcrossRuns() {
+	full := zzhRunTemplates[zzvChoice(len(zzhRunTemplates))]
+	b1 := zzvChoice(len(full) + 1)
+	b2 := b1 + zzvChoice(len(full)+1-b1)
+	cuts := []int{0, b1, b2, len(full)}
+	colors := []string{"c0", "c1", "c2"}
+	para := &Paragraph{}
+	colorAt := make([]string, len(full))
+	for i := 0; i < 3; i++ {
+		txt := full[cuts[i]:cuts[i+1]]
+		para.Runs = append(para.Runs, Run{Text: Text{Content: txt}, Properties: &RunProperties{Color: &Color{Val: colors[i]}}})
+		for j := cuts[i]; j < cuts[i+1]; j++ {
+			colorAt[j] = colors[i]
+		}
+	}
+	td := NewTemplateData()
+	value := zzhValue(2)
+	hasName, hasOther := zzvBool(), zzvBool()
+	if hasName {
+		td.SetVariable("name", value)
+	}
+	if hasOther {
+		td.SetVariable("other", "OTHER")
+	}
+	// reference, character by character: (character, formatting, formatting is checked)
+	type ch struct {
+		c, color string
+		strict   bool
+	}
+	var want []ch
+	for i := 0; i < len(full); {
+		matched := false
+		for _, v := range []struct {
+			ph, val string
+			has     bool
+		}{{"{{name}}", value, hasName}, {"{{other}}", "OTHER", hasOther}} {
+			if i+len(v.ph) <= len(full) && full[i:i+len(v.ph)] == v.ph {
+				if v.has {
+					for k := 0; k < len(v.val); k++ {
+						want = append(want, ch{v.val[k : k+1], colorAt[i], true})
+					}
+				} else {
+					// kept visible; how the characters of an unresolved placeholder are formatted is
+					// not part of the property
+					for k := 0; k < len(v.ph); k++ {
+						want = append(want, ch{v.ph[k : k+1], "", false})
+					}
+				}
+				i += len(v.ph)
+				matched = true
+				break
+			}
+		}
+		if !matched {
+			want = append(want, ch{full[i : i+1], colorAt[i], true})
+			i++
+		}
+	}
+	te := NewTemplateEngine()
+	zzvAssert(te.replaceVariablesInParagraph(para, td) == nil, "substitution succeeds")
+	var got []ch
+	for _, r := range para.Runs {
+		c := ""
+		if r.Properties != nil && r.Properties.Color != nil {
+			c = r.Properties.Color.Val
+		}
+		t := r.Text.Content
+		for k := 0; k < len(t); k++ {
+			got = append(got, ch{t[k : k+1], c, true})
+		}
+	}
+	zzvAssert(len(got) == len(want), "placeholders: the paragraph text is the original with every placeholder that has data replaced by its value and everything else kept")
+	if len(got) == len(want) {
+		textOK, fmtOK := true, true
+		for i := range got {
+			textOK = zzvAnd(textOK, got[i].c == want[i].c)
+			if want[i].strict {
+				fmtOK = zzvAnd(fmtOK, got[i].color == want[i].color)
+			}
+		}
+		zzvAssert(textOK, "placeholders: the paragraph text is the original with every placeholder that has data replaced by its value and everything else kept")
+		zzvAssert(fmtOK, "placeholders: every character keeps the formatting of the run it came from; a value takes the formatting of the run holding the placeholder's first character")
+	}
+	zzvReach("substituted")
+}
